@@ -5,6 +5,7 @@ CONSTANTS
   RPB = 2
   NSigs = 2
   NHours = 2
+  NKeys = 1
   MaxBuf = 4
   QCap = 4
   NWorkers = 1
